@@ -579,6 +579,11 @@ func runC10Race(ctx *Ctx) {
 }
 
 func runC10(ctx *Ctx) {
+	for c := 0; c < ctx.N(4, 40); c++ {
+		if ctx.Want(900000 + c) {
+			contractCase(ctx, 900000+c, ctx.Sub(900000+c), "settle-in-flight", "c10-")
+		}
+	}
 	n := ctx.N(120, 3000)
 	forEachCase(ctx, n, func(i int, rng *rand.Rand) { c10Snapshots(ctx, i, rng) })
 	k := n
